@@ -36,10 +36,14 @@ CRASH = dict(pkg="./cache/disk", test="TestVerifCrash", name="crash", diff=False
 SCHED = dict(pkg="./cache/disk", test="TestVerifSchedules", name="sched", diff=True, race=True, also=["C07", "C03"])
 
 SRVHARD = dict(pkg="./server", test="TestVerifServerHardLimit", name="srvhard", diff=False)
+HARDLAG = dict(pkg="./cache/disk", test="TestVerifHardLimitBacklog", name="hardlag", diff=False)
+SRVPOOL = dict(pkg="./server", test="TestVerifServerFailedReadThenOverlappingReads", name="srvpool", diff=False)
+SRVRTHARD = dict(pkg="./server", test="TestVerifServerReadThroughHardLimit", name="srvrthard", diff=False)
 
 GRPCPROXY = dict(pkg="./cache/grpcproxy", test="TestVerifGrpcProxyRoundTrip", name="grpcproxy", diff=False)
 
 S3PROXY = dict(pkg="./cache/s3proxy", test="TestVerifS3RoundTrip", name="s3proxy", diff=False)
+AZBLOB = dict(pkg="./cache/azblobproxy", test="TestVerifAzblobRoundTrip", name="azblob", diff=False)
 HTTPPROXY = dict(pkg="./cache/httpproxy", test="TestVerifHTTPProxyRoundTrip", name="httpproxy", diff=False)
 
 SRVREAD = dict(pkg="./server", test="TestVerifServerReadPaths", name="srvread", diff=True)
@@ -70,7 +74,7 @@ PROPS = {
         level_text="Theorems on M1: evicted entries are a least-recently-used suffix, no eviction when the item fits, minimal eviction, move-to-front on hits, oversize rejection leaves the state unchanged.",
         level_note=NOTE + "sequential histories.", technique=TECH),
     "C17": dict(
-        lean="BR.Props.C17", runs=[LRU, DISK, SRVHARD], trusted_base=COMMON_TB, assumptions=[],
+        lean="BR.Props.C17", runs=[LRU, DISK, HARDLAG, SRVHARD, SRVRTHARD], trusted_base=COMMON_TB, assumptions=[],
         level_text="Theorems on M1's Reserve: refusal iff current + backlog + size exceeds the hard limit, refusal leaves the state unchanged, retry succeeds after the backlog drained, no refusal when the option is off. Server-level oracle: with the cache filled to the limit every write path (HTTP, BatchUpdateBlobs, ByteStream.Write, UpdateActionResult with inlined blobs, FetchBlob; both storage modes) answers 507 / RESOURCE_EXHAUSTED, stores and evicts nothing, reads keep working.",
         level_note=NOTE + "the uint64 sum is modelled exactly.", technique=TECH),
     "C02": dict(
@@ -80,7 +84,7 @@ PROPS = {
         level_text="Theorems on M2 (casblob): for every conformant file (any chunk size, any frames decoding to the chunks) and every offset below the size, both readers return exactly data[offset:] (raw: the bytes; zstd: a stream decoding to them); the writer's output is conformant; readers are total.",
         level_note=NOTE + "codec laws are hypotheses (satisfied by a proved toy instance); the real codecs are exercised by the direct oracle only.", technique=TECH),
     "C20": dict(
-        lean="BR.Props.C20", runs=[BLOB, BLOBREAL, S3PROXY, HTTPPROXY], trusted_base=COMMON_TB, assumptions=[],
+        lean="BR.Props.C20", runs=[BLOB, BLOBREAL, S3PROXY, HTTPPROXY, AZBLOB], trusted_base=COMMON_TB, assumptions=[],
         level_text="Header encode/parse round trip and reader conformance theorems on M2; layout constants, file-name shapes and regexps regenerated from the source and compared by Bridge theorems; files from an independent encoder/reader in the harness; objects stored through the real S3 and HTTP back-end clients into in-process servers must appear under the published names for several prefix shapes and read back unchanged.",
         level_note=NOTE + "published layout written once in Lean as the specification.", technique=TECH),
     "C01": dict(
@@ -93,7 +97,7 @@ PROPS = {
         level_text="Invariant on M4 proved for every sequential history with failures injected at every stage: the regular files are exactly the files of indexed entries plus those queued for removal, each with the recorded length; after draining, directory = index.",
         level_note=NOTE + "concurrent histories via the atomic-lock-region assumption (C07).", technique=TECH),
     "C12": dict(
-        lean="BR.Props.C12", runs=[DISK, READTHROUGH, GRPCPROXY, S3PROXY, HTTPPROXY], trusted_base=COMMON_TB + ["transport code of the concrete back ends (net/http, grpc, minio, azure SDK) is not modelled"],
+        lean="BR.Props.C12", runs=[DISK, READTHROUGH, GRPCPROXY, S3PROXY, HTTPPROXY, AZBLOB], trusted_base=COMMON_TB + ["transport code of the concrete back ends (net/http, grpc, minio, azure SDK) is not modelled"],
         assumptions=["the back end is trusted for content it completely delivers"],
         level_text="Theorems on M4's proxy read-through: a hit carries exactly the back end's bytes with the announced size; every fault (error, not found, short/long stream, wrong or unknown size, oversize) yields a miss or an error, stores nothing and releases the reservation; each accepted upload is forwarded once.",
         level_note=NOTE + "partial: back-end transport libraries outside the model.", technique=TECH),
@@ -144,7 +148,7 @@ PROPS = {
         level_text="Theorems on M2/M6/M1: every file image a compressed upload can leave at a kill, except the final one of a successful write, is refused by readHeader and so by both readers (absent or complete, for all sizes, chunk sizes and streams); the final image is served identically at every offset; restart on any set of files re-establishes the accounting invariant and keeps every file tracked; a raw file (AC, RAW, uncompressed CAS) is adopted with its current length (F16). The real Put is interrupted at generated stream offsets, at the gate between file completion and index insertion and after the acknowledgement; every image is restarted in both storage modes and read through every path.",
         level_note=NOTE + "partial: power-loss durability is outside the model; torn raw files are the recorded finding F16.", technique=TECH),
     "C07": dict(
-        lean="BR.Props.C07", runs=[SCHED, F14], trusted_base=COMMON_TB + ["each index-lock region is taken as atomic and memory as touched only inside lock regions; an open file keeps its content after unlink; tempfile.Create never returns a name in use (O_EXCL): assumptions of model M5, not conclusions"], assumptions=["schedules are interleavings at the verif yield points; finer interleavings inside a lock region are excluded by the mutex"],
+        lean="BR.Props.C07", runs=[SCHED, F14, SRVPOOL], trusted_base=COMMON_TB + ["each index-lock region is taken as atomic and memory as touched only inside lock regions; an open file keeps its content after unlink; tempfile.Create never returns a name in use (O_EXCL): assumptions of model M5, not conclusions"], assumptions=["schedules are interleavings at the verif yield points; finer interleavings inside a lock region are excluded by the mutex"],
         level_text="Theorems on M5 for every schedule of any number of uploads, reads, remover steps and file corruptions: the C03 index invariant holds after every step and exactly the uploads in flight hold reservations (so nothing stays reserved at quiescence); every read that returns data returns the complete bytes of one completed upload to the same key; the files on disk are exactly the files of the tracked entries plus the completed files of uploads that have not committed, with unique names (directory = index at quiescence). The real Put/Get/remover are driven along generated schedules through the yield points (a released segment must reach its next gate or finish) and compared with the model on read results, reservations, entry count and recency order; quiescence oracles for accounting and directory; thorough tier under the race detector.",
         level_note=NOTE + "partial: atomicity of lock regions and absence of data races are assumed by the model (race detector in the thorough tier).", technique=TECH),
 }
